@@ -27,6 +27,9 @@ int verif_readf (SF_PRIVATE *psf, const char *fmt, int nargs, const uint64_t *ar
 #define VM_PICK(_1, _2, _3, _4, _5, _6, _7, _8, NAME, ...)	NAME
 #define VM(...)							VM_PICK (__VA_ARGS__, VM8, VM7, VM6, VM5, VM4, VM3, VM2, VM1) (__VA_ARGS__)
 #define VN(...)							VM_PICK (__VA_ARGS__, 8, 7, 6, 5, 4, 3, 2, 1)
+/* E1: append_snprintf (common.c, variadic) appends within maxlen and keeps the buffer terminated */
+#define append_snprintf(dest, maxlen, ...)	verif_append ((dest), (maxlen))
+void verif_append (char *dest, size_t maxlen) ;
 #define psf_binheader_readf(psf, fmt, ...)	verif_readf ((psf), (fmt), VN (__VA_ARGS__), (const uint64_t []) { VM (__VA_ARGS__) })
 #include PARSER_FILE
 void verif_nolog (void) { }
@@ -77,6 +80,11 @@ sf_count_t psf_ftell (SF_PRIVATE *psf) { sf_count_t nd ; return nd ; }
 #endif
 sf_count_t psf_fseek (SF_PRIVATE *psf, sf_count_t offset, int whence) { sf_count_t nd ; return nd ; }
 sf_count_t psf_get_filelen (SF_PRIVATE *psf) { sf_count_t nd ; return nd ; }
+void verif_append (char *dest, size_t maxlen)
+{	__CPROVER_assert (maxlen >= 1 && __CPROVER_w_ok (dest, maxlen), "E1 append_snprintf: destination holds maxlen bytes") ;
+	__CPROVER_havoc_slice (dest, maxlen) ;
+	dest [maxlen - 1] = 0 ;
+}
 sf_count_t psf_fread (void *ptr, sf_count_t bytes, sf_count_t items, SF_PRIVATE *psf)
 {	__CPROVER_assert (bytes >= 0 && items >= 0 && (bytes * items == 0 || __CPROVER_w_ok (ptr, (size_t) (bytes * items))), "file read: destination holds the requested size") ; /*@C03.file_read_fits_its_destination*/
 	sf_count_t nd ; __CPROVER_assume (0 <= nd && nd <= items) ; return nd ;
@@ -88,6 +96,15 @@ int psf_isprint (int ch) { return (ch >= ' ' && ch <= '~') ; }		/* as in common.
 
 static unsigned char hbuf [256] ;
 static SF_PRIVATE P ;
+#ifdef WAVLIKE_FMT_WRAPPER
+/* the 'fmt ' chunk parser shared by WAV, W64 and RF64: chunk size as found in the file */
+static WAVLIKE_PRIVATE wav_priv ;
+static int wavlike_fmt_h (SF_PRIVATE *psf)
+{	int fmtsize_nd ;
+	psf->container_data = &wav_priv ;
+	return wavlike_read_fmt_chunk (psf, fmtsize_nd) ;
+}
+#endif
 #ifdef AIFF_WRAPPER
 static AIFF_PRIVATE aiff_priv ;
 static int aiff_read_header_h (SF_PRIVATE *psf)
